@@ -832,7 +832,9 @@ def rule_printfields(crate):
     decided = False
     for i in ifs:
         def has_paren(e):
-            return any(y.get("k") == "Lit" and isinstance(y.get("lit"), dict) and y["lit"].get("v") == "(" for y in walk(e))
+            from wpeval import is_paren_wrapper
+
+            return any((y.get("k") == "Lit" and isinstance(y.get("lit"), dict) and y["lit"].get("v") == "(") or (y.get("k") == "Call" and is_paren_wrapper(crate, callee(y))) for y in walk(e))
         bare_then, bare_else = not has_paren(i["then"]), not has_paren(i["else"])
         if bare_then == bare_else:
             continue
